@@ -75,7 +75,8 @@ struct C19World: World {
         // blocks taken from ::operator new inside lifecycle calls are tracked; the observation strings the harness keeps are taken outside the scope
         #define TRACKED(stmt) do { TrackGlobalNew tg_; stmt; } while (0)
         switch (s.kind) {
-          case L_NEW: TRACKED(a.sk.reset(f->make(fcfg))); a.moved_from = false; a.expect = a.sk->obs(false); break;
+          case L_NEW: ARENA = 1 + static_cast<int>(static_cast<size_t>(s.a) % pool.size() % 2);   // odd pool slots get an allocator instance that compares unequal to the even slots' one
+            TRACKED(a.sk.reset(f->make(fcfg))); ARENA = 1; a.moved_from = false; a.expect = a.sk->obs(false); ctx.probe("object_in_second_arena", static_cast<u64>(static_cast<size_t>(s.a) % pool.size() % 2)); break;
           case L_FEED: if (a_ok) { TRACKED(a.sk->feed(s.b, s.c / 64, s.c % 64)); a.expect = a.sk->obs(false); } break;
           case L_COPY: if (b_ok && &a != &b) { TRACKED(a.sk.reset(b.sk->clone())); a.moved_from = false; a.expect = a.sk->obs(false);
               ctx.require(a.expect == b.expect, fp(p, "copy-differs-from-source").c_str(), a.expect.substr(0, 200) + " vs " + b.expect.substr(0, 200)); ctx.nontrivial = true; } break;
